@@ -2,6 +2,8 @@ package main
 
 import (
 	"fmt"
+	"os"
+	"time"
 
 	"github.com/olive-io/bpmn/schema"
 	"github.com/olive-io/bpmn/v2/pkg/event"
@@ -125,7 +127,25 @@ func c14case(out *rec.Out, kind string, par bool, n int, hist []int, stats map[s
 			}
 			ev = sev
 		}
-		m, c := s.Satisfy(ev)
+		// (a Satisfy call that does not return — a loop over the chains that never ends — would hang the whole family: the
+		// call runs under a deadline; past it the case is closed with `hang` and the process ends)
+		type res struct {
+			m bool
+			c int
+		}
+		done := make(chan res, 1)
+		go func() { m, c := s.Satisfy(ev); done <- res{m, c} }()
+		var m bool
+		var c int
+		select {
+		case r := <-done:
+			m, c = r.m, r.c
+		case <-time.After(20 * time.Second):
+			out.Line("hang %d", i)
+			out.End()
+			out.Flush()
+			os.Exit(0)
+		}
 		out.Line("ev %d %d %d", i, rec.B(m), c)
 		if m {
 			stats["fired"]++
